@@ -523,7 +523,10 @@ def r8_stateless_wrappers(ctx):
             m += 1
             ctx.touch(c.rel, f"{c.name}.{name}")
             stores = self_state_stores(fn, c.methods.values())
-            ctx.ob("C03.R8", c.rel, f"{c.name}.{name}", fn, "the evaluator method stores nothing on the evaluator object", not stores, detail={"stores": stores}, stmt=f"{c.name}.{name} stateless")
+            from ..util import alias_mutations
+            via_alias = [f"{al} is self.{attr}: {unparse(node)[:50]}" for al, attr, node in alias_mutations(fn)]
+            ctx.ob("C03.R8", c.rel, f"{c.name}.{name}", fn, "the evaluator method stores nothing on the evaluator object (nor changes one of its containers through a local alias)", not stores and not via_alias,
+                   detail={"stores": stores, "through aliases": via_alias}, stmt=f"{c.name}.{name} stateless")
     ctx.floor("C03.R8", "evaluator methods examined", m, 3)
 
 
@@ -688,6 +691,7 @@ def _class_cache(tree):
 
 
 CONTROLS = [
+    ("SequentialIGL appends to its own record list", SEQ, M.replace_stmt("SequentialIGL.evaluate", M.text_has("record = self._record + ['action']"), "record = self._record\nrecord.append('action')"), "C03.R8"),
     ("epsilon learner keeps its value table's __getitem__", "coba/learners/bandit.py", M.insert_after("BanditEpsilonLearner.__init__", M.text_has("self._Q"), "self._value_of = self._Q.__getitem__"), "C03.R17"),
     ("the per-child limit counts outputs", "coba/pipes/multiprocessing.py", M.replace_expr("Multiprocessor.filter", "SourceSink(in_get, setter, unpickler, get_max, Safe(Foreach(self._filter)), pickler, out_put)",
         "SourceSink(in_get, setter, unpickler, Safe(Foreach(self._filter)), get_max, pickler, out_put)"), "C03.R16"),
